@@ -349,6 +349,16 @@ impl Prop for C07 {
             CreatorKind::CursorVec => run_all_exits(&case.conf, case.kind, grenad::CursorVec, &inserts, distinct)?,
             CreatorKind::TempFile => run_all_exits(&case.conf, case.kind, grenad::TempFileChunk, &inserts, distinct)?,
             CreatorKind::Instrumented => run_all_exits(&case.conf, case.kind, Creator { ctl: ioinstr::ctl() }, &inserts, distinct)?,
+            CreatorKind::InstrumentedReentrant => {
+                let ctl = ioinstr::ctl();
+                ctl.borrow_mut().reentrant = true;
+                run_all_exits(&case.conf, case.kind, Creator { ctl }, &inserts, distinct)?
+            }
+            CreatorKind::InstrumentedStaging => {
+                let ctl = ioinstr::ctl();
+                ctl.borrow_mut().staging = true;
+                run_all_exits(&case.conf, case.kind, Creator { ctl }, &inserts, distinct)?
+            }
         };
         for (o, name) in outs.iter().zip(["stream", "writer", "cursors"]) {
             if let Err(e) = output_ok(case.kind, case.conf.stable, &model_in, &o.entries) {
